@@ -528,7 +528,13 @@ func (c *compiler) compile(tok *token) []instruction {
 					res = append(res, instruction{Code: codeCast, A: reg(typ)})
 				}
 			}
-			res = append(res, instruction{Code: code, A: reg(idx)})
+			ins := instruction{Code: code, A: reg(idx)}
+			if code == codeGlobalSet {
+				// a declaration gives the variable its type: it does not take the type of
+				// what an earlier load or Eval left in the slot
+				ins.B = 2
+			}
+			res = append(res, ins)
 		}
 
 	case "function":
